@@ -208,6 +208,7 @@ Proof. induction t as [|x t IH]; [reflexivity|]. cbn [map dot sum]. rewrite IH. 
 (* ---- entrywise complex kernels (harness/srctie.py, CplxTr): congruence by structure, leaves by ring ---- *)
 Ltac tie_req :=
   first [ reflexivity | ring
+        | (progress (rewrite ?sqrt_sqrt by nra); ring)       (* (sqrt n)^2 = n for n = re^2 + im^2 *)
         | (apply (f_equal2 Rdiv); tie_req) | (apply (f_equal sqrt); tie_req)
         | (apply (f_equal2 Rmult); tie_req) | (apply (f_equal2 Rplus); tie_req) | (apply (f_equal2 Rminus); tie_req)
         | (apply (f_equal Ropp); tie_req) ].
